@@ -361,7 +361,8 @@ def execute(case, scratch):
             target = cmd['target']
             # what does the loader itself say about this file?
             van = (cmd.get('reads') or {}).get('__vanish__')
-            if van:
+            absent = bool((cmd.get('reads') or {}).get('__absent__'))
+            if van or absent:
                 # the loader's own failure for a file that is not there
                 direct = {'error': '[Errno 2] No such file or directory', 'type': 'FileNotFoundError'}
             else:
@@ -391,11 +392,15 @@ def execute(case, scratch):
                     if not any(e.get('k') == 'vanish' for e in r.events):
                         count['command_not_judged'] = count.get('command_not_judged', 0) + 1
                         continue        # the command never looked at the file that often: nothing vanished
+                elif absent:
+                    r = proc.run_cli(root, argv, {'net': 'down'}, cwd=cmd.get('cwd') or '.', ctl_parent=ctlp)
                 else:
                     r = proc.run_cli(root, argv, {'reads': cmd.get('reads') or {}, 'net': 'down'}, ctl_parent=ctlp)
                 count['command_runs'] += 1
                 obs = argv[0]
-                if van:
+                if absent:
+                    count['fired.absent-with-decoy'] = count.get('fired.absent-with-decoy', 0) + 1
+                elif van:
                     count['fired.vanish'] = count.get('fired.vanish', 0) + 1
                 elif cmd.get('reads'):
                     count['fired.read-fault'] = count.get('fired.read-fault', 0) + 1
@@ -404,10 +409,13 @@ def execute(case, scratch):
                 sets['tuples'].add('%s|%s|%s|%s' % (cmd['kind'], cmd['class'], 'cmd', obs))
                 text = r.out + '\n' + r.err
                 reported = any(n in text for n in needles)
-                if van and obs == 'diag':
+                gone = bool(van) or absent   # judged alike: "not found" in the command's own words will do
+                if gone and obs == 'diag':
                     reported = True      # diag describes what it finds on disk; "not found" wording is its own
-                if van and ('not found' in text.lower() or 'no such file' in text.lower() or 'missing' in text.lower()):
+                if gone and ('not found' in text.lower() or 'no such file' in text.lower() or 'missing' in text.lower()):
                     reported = True
+                if absent and 'Decoy' in text:
+                    reported = False     # ... unless it went on with a file from somewhere else
                 if cmd['kind'] == 'views' and obs == 'up' and r.exit != 0:
                     # the run stopped for another reason before it got to show its warnings: not judged
                     count['command_not_judged'] = count.get('command_not_judged', 0) + 1
@@ -524,8 +532,20 @@ def build_case(rng, tier):
         else:
             cls = 'EIO'
             reads = {target: {'kind': 'eio', 'after': rng.randint(0, 20)}}
+        cwd, cfg_arg = '.', base + 'config'
+        import re as _re
+        key = {'rules': 'merchants_file', 'views': 'views_file'}.get(kind)
+        named = _re.search(r'(?m)^%s:[ \t]*["\']?([^"\'\s#]+)' % key, files[base + 'config/settings.yaml']) if key else None
+        if named and cls in ('EIO', 'EACCES') and rng.random() < 0.5:
+            # the configured file is simply not there - and the command is started from another directory in which a file of
+            # the same relative name lies (last year's budget): the budget's rules are the file settings.yaml names, or an error
+            cls, reads = 'absent', {'__absent__': True}
+            del snap[target]
+            snap['elsewhere/' + named.group(1)] = (b'[Decoy]\nmatch: amount > 0 or amount < 0\ncategory: Decoy\nsubcategory: Wrong\n' if kind == 'rules'
+                                                   else b'[Decoy]\nfilter: total > 0 or total < 0\n')
+            cwd, cfg_arg = 'elsewhere', os.path.relpath(base + 'config', 'elsewhere')
         case['commands'].append({'kind': kind, 'class': cls, 'world': util.snap_to_json(snap), 'target': target,
-                                 'cfg': base + 'config', 'reads': reads})
+                                 'cfg': cfg_arg, 'cwd': cwd, 'reads': reads})
     return case
 
 
